@@ -196,6 +196,7 @@ class Network(object):
     self.all_conns = []
     self.faults_fired = []
     self.read_spins = []
+    self.linger_blocks = []
 
   def _next_conn_id(self):
     self._conn_id += 1
@@ -237,6 +238,7 @@ class Network(object):
     self.all_conns = []
     self.faults_fired = []
     self.read_spins = []
+    self.linger_blocks = []
 
   def add_server(self, host, port, handler_factory):
     s = SimServer(self, host, port, handler_factory)
@@ -289,12 +291,40 @@ class SimSocket(object):
       raise e.cancel_exc
 
   # ---- socket API used by ScalesSocket / VarzSocketWrapper
+  _linger = None
+
   def setsockopt(self, *a):
     if self.closed:
       raise _oserr(errno.EBADF)
+    if len(a) == 3 and a[0] == _real_socket.SOL_SOCKET and a[1] == _real_socket.SO_LINGER:
+      import struct
+      try:
+        onoff, secs = struct.unpack('ii', a[2])
+        self._linger = float(secs) if onoff else None
+      except Exception:
+        pass
+
+  _timeout = None
 
   def settimeout(self, t):
-    pass
+    # as a (gevent) socket: every later blocking operation gives up with socket.timeout after t
+    self._timeout = None if t is None else float(t)
+
+  def gettimeout(self):
+    return self._timeout
+
+  def _block_op(self, side='r'):
+    """Wait (for data / for buffer space) as one socket operation: bounded by the socket's timeout."""
+    if self._timeout is None:
+      return self._block(side=side)
+    left = self._op_deadline - self.net.env.now if getattr(self, '_op_deadline', None) is not None else self._timeout
+    if left <= 0:
+      self._op_deadline = None
+      import socket as _s
+      raise _s.timeout('timed out')
+    if getattr(self, '_op_deadline', None) is None:
+      self._op_deadline = self.net.env.now + self._timeout
+    self._block(left, side=side)
 
   def fileno(self):
     return -1
@@ -423,6 +453,7 @@ class SimSocket(object):
         conn.consumed = len(conn.c2s)
         continue
       if pi == 0 and d and d > 0:
+        conn.undrained_until = env.now + d      # what was accepted sits unacknowledged in the kernel until then
         self._block(d, side='w')
         if self.closed:
           raise _oserr(errno.EBADF)
@@ -468,6 +499,7 @@ class SimSocket(object):
         del conn.rxbuf[:k]
         conn.s2c_read += k
         env.emit('net.recv', conn=conn.id, op=ordinal, n=k, upto=conn.s2c_read)
+        self._op_deadline = None
         return k
       if conn.server_closed == 'rst':
         raise _oserr(errno.ECONNRESET)
@@ -486,14 +518,24 @@ class SimSocket(object):
           raise _oserr(errno.ECONNRESET)
         if spin[1] == 1:
           env.emit('net.recv', conn=conn.id, op=ordinal, n=0, upto=conn.s2c_read)
+        self._op_deadline = None
         return 0
-      self._block()
+      self._block_op()
 
   def close(self):
     if self.closed:
       return
     self.closed = True
     conn = self.conn
+    if conn is not None and not conn.client_closed and self._linger and \
+        getattr(conn, 'undrained_until', 0.0) > self.net.env.now and not conn.server_closed:
+      # SO_LINGER: close() blocks - the whole process, nothing else runs - until the queued data has
+      # been acknowledged or the linger time is over
+      env_ = self.net.env
+      held = min(self._linger, conn.undrained_until - env_.now)
+      env_.emit('net.close.linger', conn=conn.id, blocked=held)
+      env_.clock.now += held
+      self.net.linger_blocks.append((conn.id, held))
     if conn is not None and not conn.client_closed:
       conn.client_closed = True
       conn.closed_vt = self.net.env.now
